@@ -186,8 +186,14 @@ class Facts:
         self.types = d["types"]
         self.bodies = {}
         self.body_list = []
+        self.helper_bodies = {}
         for j in d["bodies"]:
             b = Body(self, j)
+            if b.inlined_everywhere:
+                # a helper introduced after the reference tree whose every use was inlined into its callers:
+                # its code is analysed there, in context; on its own it is not part of the program any more
+                self.helper_bodies[b.path] = b
+                continue
             self.body_list.append(b)
             # paths are unique except for closures in generic contexts; keep first
             self.bodies.setdefault(b.path, b)
